@@ -293,25 +293,7 @@ def run(ctx: Ctx) -> None:
             rep.bad("C02.R2", comp.qname, desc, comp.loc(u), w + ["a zero-argument callee then inherits its caller's context: edits outside its dependency cone re-execute it"],
                     stmt_key(st), what="the caller's context is hashed into callees whose arguments are all known")
     rep.floor("C02.R2", n2, 1)
-    from .c11 import inspectors, descents
-    for insp in inspectors(ctx):
-        if insp.module.name != "dds.introspect":
-            continue
-        for n in insp.own_nodes():
-            if isinstance(n, ast.Call) and unparse(n.func).endswith("get_arg_ctx_ast") and len(n.args) >= 3:
-                st = prog.enclosing_stmt(insp.module, n)
-                if "keep" in ast.unparse(st) and "node.args[2:]" in ast.unparse(st):
-                    continue
-                a1, a2 = n.args[1], n.args[2]
-                empty = isinstance(a1, ast.List) and not a1.elts and isinstance(a2, ast.Call) and not a2.args
-                is_keep = isinstance(a1, ast.Subscript)
-                if is_keep:
-                    continue
-                desc = "a plain (non-kept) call binds no argument values: its callee's signature does not depend on the call site's spelling"
-                if empty:
-                    rep.ok("C02.R2", insp.qname, desc, insp.loc(n))
-                else:
-                    rep.bad("C02.R2", insp.qname, desc, insp.loc(n), [f"plain call binds `{unparse(a1, 30)}`, `{unparse(a2, 30)}`"], stmt_key(n), what="plain calls carry call-site arguments into the callee's signature")
+    # (the binding of a plain call's arguments - constants bound, the rest keyed by the calling context - is decided by C13.R4, run below as C02.R3)
 
     # ---- R3 -------------------------------------------------------------------------------
     from . import c13
